@@ -69,7 +69,7 @@ def main(argv):
     if hasattr(mod, 'setup'):
         mod.setup(tier, seed)
     allcases = mod.cases(tier, seed)
-    mine = (c for k, c in enumerate(allcases) if k % nshards == shard)
+    mine = (dict(c, seed=seed) for k, c in enumerate(allcases) if k % nshards == shard)
     try:
         res = run_cases(mod, mine, budget)
         if hasattr(mod, 'finish'):
